@@ -9,22 +9,22 @@ import MTVerif.Lemmas.ShrinkSound
 namespace MT.C04
 open MT
 
-variable (sub : ClassId → ClassId → Bool)
+variable (sub : ClassId → ClassId → Bool) (ao : Bool)
 
 /-- per-value inference admits the value it was computed from, for every limit `k` -/
-theorem getType_sound (hrefl : ∀ c, sub c c = true) (k : Nat) (v : Val) (h : v.wf = true) : conforms sub (getType k v) v = true :=
-  MT.getType_sound sub hrefl k v h
+theorem getType_sound (hrefl : ∀ c, sub c c = true) (k : Nat) (v : Val) (h : v.wf = true) : conforms sub ao (getType k v) v = true :=
+  MT.getType_sound sub ao hrefl k v h
 
 /-- merging never loses a member: a value admitted by some input type is admitted by the merged type -/
 theorem shrink_sound (hrefl : ∀ c, sub c c = true) (k : Nat) (ts : List Ty) (hw : ∀ t ∈ ts, t.wf = true) (v : Val)
-    (h : ∃ t ∈ ts, conforms sub t v = true) : conforms sub (shrink k ts) v = true :=
-  MT.shrink_sound sub hrefl k ts hw v h
+    (h : ∃ t ∈ ts, conforms sub ao t v = true) : conforms sub ao (shrink k ts) v = true :=
+  MT.shrink_sound sub ao hrefl k ts hw v h
 
 /-- C04, soundness clause: the single type inferred for a finite collection of values
     (per-value inference followed by merging) has every one of those values as a member,
     for every collection, every nesting and every TypedDict size limit. -/
 theorem infer_sound (hrefl : ∀ c, sub c c = true) (k : Nat) (vs : List Val) (hw : ∀ v ∈ vs, v.wf = true) :
-    ∀ v ∈ vs, conforms sub (infer k vs) v = true := by
+    ∀ v ∈ vs, conforms sub ao (infer k vs) v = true := by
   intro v hv
   have hwl : wfL vs = true := by
     clear hv
@@ -33,7 +33,7 @@ theorem infer_sound (hrefl : ∀ c, sub c c = true) (k : Nat) (vs : List Val) (h
     | cons a as ih =>
       simp only [wfL, Bool.and_eq_true]
       exact ⟨hw a (List.mem_cons_self ..), ih (fun x hx => hw x (List.mem_cons_of_mem _ hx))⟩
-  exact MT.shrink_sound sub hrefl k _ (getTypes_wf k vs hwl) v (getTypes_sound sub hrefl k vs hwl v hv)
+  exact MT.shrink_sound sub ao hrefl k _ (getTypes_wf k vs hwl) v (getTypes_sound sub ao hrefl k vs hwl v hv)
 
 /-- everything inference builds is a well-formed type (TypedDict keys distinct) -/
 theorem infer_wf (k : Nat) (vs : List Val) (hw : wfL vs = true) : (infer k vs).wf = true :=
@@ -42,8 +42,8 @@ theorem infer_wf (k : Nat) (vs : List Val) (hw : wfL vs = true) : (infer k vs).w
 /-- Python `==` on types identifies only types with exactly the same members, so returning the first
     of several `==` types (typing.py:149-150) cannot lose a value -/
 theorem eqv_sound (a b : Ty) (h : Ty.eqv a b = true) (hb : b.wf = true) (v : Val) :
-    conforms sub a v = true ↔ conforms sub b v = true :=
-  Ty.eqv_sound sub a b h hb v
+    conforms sub ao a v = true ↔ conforms sub ao b v = true :=
+  Ty.eqv_sound sub ao a b h hb v
 
 /-! Termination ("inference terminates without error"): `shrink`, `getType` are total Lean functions;
     `shrink`'s well-founded recursion is justified in Model/Infer.lean (`termination_by sizeL ts`),
